@@ -15,10 +15,10 @@ def run(tier, seed):
         mc = vlib.tlc_mc("MC_EA", "MC_EA.cfg", wd, workers=8, timeout=1200)
         vlib.require_mc_ok(mc, "MC_EA")
         q = tier == "quick"
-        res = xc.judge(rep, "ea", 36 if q else 720, seed + 4000, wd, "e", OWNS, jobs=8 if q else 14)
+        res = xc.judge(rep, "ea", 36 if q else 2000, seed + 4000, wd, "e", OWNS, jobs=8 if q else 14)
         # memory operands of PUSH / POP / CALL addressed through RSP: the address is formed with the RSP value from BEFORE the
         # instruction's own stack adjustment (POP [rsp+d]: after the increment, as the SDM says) - X86.tla's Push/Pop/Call
-        xc.judge(rep, "stack", 24 if q else 400, seed + 4100, wd, "s", OWNS_S, jobs=8 if q else 14, res=res, case_filter=RSP_MEM, skip_dev=True)
+        xc.judge(rep, "stack", 24 if q else 1200, seed + 4100, wd, "s", OWNS_S, jobs=8 if q else 14, res=res, case_filter=RSP_MEM, skip_dev=True)
         rep.cov["samples"] = [{"family": "ea", "example": sorted(res.distinct)[:3]}]
         xc.finish_cov(rep, res, mc, "LEA r16/r32/r64 and MOV/MOVZX/ADD/MOVUPS loads and stores over base / base+disp8 / base+disp32 / base+index*scale(+disp) / "
                       "index*scale+disp32 / absolute / RIP-relative shapes, all 16 base and 15 index registers, scales 1-8, wrapping register values, "
